@@ -279,6 +279,8 @@ def _positive_zero(val: Any) -> Any:
         return 0.0
     if type(val) in (tuple, list):
         return type(val)(_positive_zero(v) for v in val)
+    if isinstance(val, tuple) and hasattr(val, "_fields"):
+        return type(val)(*(_positive_zero(v) for v in val))  # (a named tuple)
     if type(val) is dict:
         return {k: _positive_zero(v) for k, v in val.items()}
     return val
@@ -353,7 +355,7 @@ def hdl21_naming_encoder(obj: Any) -> Any:
         }
 
     # Not an Hdl21 type. Hand off to pydantic.
-    return pydantic_json_encoder(obj)
+    return _positive_zero(pydantic_json_encoder(obj))
 
 
 # Shortcut for parameter-less generators.
